@@ -550,6 +550,7 @@ var standingAssumptions = []string{
 	"package-level error variables initialised by errors.New/fmt.Errorf and never reassigned are distinct, non-nil and wrap nothing",
 	"callback parameters of function type are treated as effect-free when called inside a verified function",
 	"loops are cut at their invariants (default invariant: true, all written locations havocked)",
+	"an external callee without contract is assumed to write only what is reachable through its statically typed pointer parameters (decoders named *Unmarshal* also through the dynamic type of their interface arguments); each such call is listed above as 'extern callee without contract havocked'",
 }
 
 // ---------------------------------------------------------------- replay
